@@ -531,6 +531,7 @@ def check(pc, goal, timeout_ms):
       L2  L1 + the heavier hypotheses that share a symbol with the goal
     then all hypotheses with the strategy portfolio."""
     seed = int(os.environ.get('VERIF_SEED', '0') or 0)
+    zseed = seed if os.environ.get('VERIF_CVC_Z3_SEED') else 0     # z3's random_seed: default 0 (stable timings)
     total = 0.0
     sizes = [term_size(p) for p in pc]
     syms = [symbols(p) for p in pc]
@@ -567,23 +568,25 @@ def check(pc, goal, timeout_ms):
         if len(sub) == len(pc) or len(sub) in tried:
             continue
         tried.add(len(sub))
-        gen = generalise(sub, goal)
-        if gen is not None:
-            r, dt, s = _run('simp', gen[0], gen[1], min(2000, cap), seed)
-            total += dt
-            if r == z3.unsat:
-                return 'unsat', total, None, '%s-generalised:%d/%d' % (name, len(sub), len(pc))
-        r, dt, s = _run('simp', sub, goal, cap, seed)
+        r, dt, s = _run('simp', sub, goal, cap, zseed)
         total += dt
         if r == z3.unsat:
             return 'unsat', total, None, '%s:%d/%d' % (name, len(sub), len(pc))
+        t0 = time.time()
+        gen = generalise(sub, goal)        # (walks every hypothesis: only after the plain attempt failed)
+        total += time.time() - t0
+        if gen is not None:
+            r, dt, s = _run('simp', gen[0], gen[1], min(3000, cap), zseed)
+            total += dt
+            if r == z3.unsat:
+                return 'unsat', total, None, '%s-generalised:%d/%d' % (name, len(sub), len(pc))
     # all hypotheses: the strategies take turns with growing slices (the best one is not known in advance and they
     # differ by an order of magnitude; iterative deepening costs at most ~2x the best strategy)
     reasons = []
     for rnd_no, frac in enumerate((0.04, 0.12, 0.40)):
         reasons = []
         for strat in STRATEGIES:
-            r, dt, s = _run(strat, pc, goal, timeout_ms * frac, seed)
+            r, dt, s = _run(strat, pc, goal, timeout_ms * frac, zseed)
             total += dt
             if r == z3.unsat:
                 return 'unsat', total, None, strat
@@ -686,7 +689,7 @@ def model_witness(model, info):
     return w
 
 
-def verify_function(tu, reg, fname, prop='CVC', timeout_ms=None, kinds=None, replayer=None, only_configs=None):
+def verify_function(tu, reg, fname, prop='CVC', timeout_ms=None, kinds=None, replayer=None, only_configs=None, shard=None):
     """returns (function_entry, results) in the README_UNITS format"""
     timeout_ms = timeout_ms or QUERY_TIMEOUT_MS
     area = reg.area
@@ -716,10 +719,10 @@ def verify_function(tu, reg, fname, prop='CVC', timeout_ms=None, kinds=None, rep
     obligations = []
     runs = []
     try:
+        grow = {}        # inferred loop frames carry over to the next configuration (same code, same shapes)
         for cfg in c.configs:
             if only_configs is not None and cfg.get('name', 'default') not in only_configs:
                 continue
-            grow = {}
             for attempt in range(8):
                 run = FunctionRun(tu, reg, fname, cfg)
                 run.eng.loop_extra_mod = grow
@@ -755,13 +758,18 @@ def verify_function(tu, reg, fname, prop='CVC', timeout_ms=None, kinds=None, rep
             st = 'error' if r == z3.unsat else 'undecided'
             results.append({'id': rid('vacuity', 'requires_sat.' + run.eng.config), 'kind': 'vacuity', 'clause': 'precondition satisfiable',
                             'status': st, 'backend': 'z3', 'seconds': 0, 'detail': 'precondition check: %s' % r, 'witness': None, 'replayed': False})
-    # group by (kind, name)
+    # group by (kind, name); a shard (i, n) discharges only its share of the groups (heavy functions are spread over units)
+    import zlib
     groups = {}
     for ob in obligations:
         if kinds is not None and ob.kind not in kinds:
             continue
+        if shard is not None and zlib.crc32(('%s.%s' % (ob.kind, ob.name)).encode()) % shard[1] != shard[0]:
+            continue
         groups.setdefault((ob.kind, ob.name), []).append(ob)
-    if not groups and not results:
+    if shard is not None and shard[0] != 0:
+        results = []
+    if not groups and not results and (shard is None or shard[0] == 0):
         return und('no obligations generated for %s' % fname, 'error')
     worst_rank = {'discharged': 0, 'undecided': 1, 'violated': 2}
     all_ok = True
